@@ -440,6 +440,13 @@ func c12Run(cs *c12Case) (out c12Out, sc *c12Script) {
 	case "batch":
 		var res kmipclient.BatchResult
 		n := len(cs.Ops)
+		// the batch error continuation option asked for (none / Continue / Stop / Undo, a function of the case): what
+		// the client accepts as a response does not depend on it - a response shorter than the request is a protocol
+		// violation under every option
+		var opts []kmipclient.BatchOption
+		if k := (int(cs.Count) + 3*n) % 4; k > 0 {
+			opts = append(opts, kmipclient.OnBatchErr(kmip.BatchErrorContinuationOption(k)))
+		}
 		if n < 2 || (!cs.BuildErr && (n+cs.Ops[0])%2 == 0) {
 			// Client.Batch with the built payloads
 			var pls []kmip.OperationPayload
@@ -448,7 +455,7 @@ func c12Run(cs *c12Case) (out c12Out, sc *c12Script) {
 				p, _ := pb.Build()
 				pls = append(pls, p)
 			}
-			res, out.err = c.Batch(ctx, pls...)
+			res, out.err = c.BatchOpt(ctx, pls, opts...)
 		} else {
 			// fluent chain: first.Then(second)...Then(last).ExecContext
 			then := func(i int, bad bool) func(*kmipclient.Client) kmipclient.PayloadBuilder {
@@ -467,7 +474,7 @@ func c12Run(cs *c12Case) (out c12Out, sc *c12Script) {
 			for k := 2; k < n; k++ {
 				be = be.Then(then(cs.Ops[k], cs.BuildErr && k == n-1))
 			}
-			res, out.err = be.ExecContext(ctx)
+			res, out.err = be.ExecContext(ctx, opts...)
 		}
 		if out.err == nil {
 			out.items = res
@@ -953,6 +960,7 @@ func driveC12(c *h.Ctx) error {
 	var rows []string
 	for i := range cases {
 		cs := &cases[i]
+		c.Current(cs)
 		out, sc := c12Run(cs)
 		key := c12JSON(cs)
 		if out.skipped != "" {
@@ -1032,10 +1040,11 @@ func driveC12(c *h.Ctx) error {
 					fail("nil-payload-as-success", "the call returned no payload and no error")
 				} else if out.payload.Operation() != ops[0] {
 					fail("foreign-payload-as-success", fmt.Sprintf("the call for %s returned a %T (operation %s) as success", ttlv.EnumStr(ops[0]), out.payload, ttlv.EnumStr(out.payload.Operation())))
-				} else if cs.API == "exec" {
-					if t, ok := c12Registry[ops[0]]; ok && reflect.TypeOf(out.payload) != reflect.PointerTo(t[1]) {
-						fail("foreign-payload-as-success", fmt.Sprintf("ExecContext for %s returned a %T", ttlv.EnumStr(ops[0]), out.payload))
-					}
+				} else if t, ok := c12Registry[ops[0]]; ok && (cs.API == "exec" || cs.Mode != "direct") && reflect.TypeOf(out.payload) != reflect.PointerTo(t[1]) {
+					// the payload type belonging to the requested operation: the registered response type, through the
+					// typed executors and through the generic entry points alike (for responses that went through the
+					// decoder: a transport handing back response OBJECTS - mode "direct" - is not a server)
+					fail("foreign-payload-as-success", fmt.Sprintf("the call (%s) for %s returned a %T, the payload type of that operation is %s", cs.API, ttlv.EnumStr(ops[0]), out.payload, t[1]))
 				}
 				if shape == "count-mismatch" {
 					fail("violation-accepted", "batch/item count mismatch accepted")
@@ -1066,6 +1075,8 @@ func driveC12(c *h.Ctx) error {
 							fail("nil-payload-as-success", fmt.Sprintf("successful item %d has no payload", k))
 						} else if bi.ResponsePayload.Operation() != ops[k] {
 							fail("foreign-payload-as-success", fmt.Sprintf("item %d for %s carries a %T as success", k, ttlv.EnumStr(ops[k]), bi.ResponsePayload))
+						} else if t, ok := c12Registry[ops[k]]; ok && cs.Mode != "direct" && reflect.TypeOf(bi.ResponsePayload) != reflect.PointerTo(t[1]) {
+							fail("foreign-payload-as-success", fmt.Sprintf("item %d for %s carries a %T as success, the payload type of that operation is %s", k, ttlv.EnumStr(ops[k]), bi.ResponsePayload, t[1]))
 						}
 					}
 				}
